@@ -69,6 +69,24 @@ def scenarios(rng, n, tier):
                 e = {"op": "exec", "rel": [k, rng.choice([0, 0, 1, -1, periods[k] if k < len(periods) else 1])]}
                 if rng.random() < 0.15:
                     e["force"] = True
+                if rng.random() < 0.35:
+                    # callbacks that schedule / delete on their own scheduler during the call
+                    scripts = {}
+                    for kk in rng.sample(range(nk), rng.randint(1, min(nk, 2))):
+                        cops = []
+                        for _ in range(rng.randint(1, 2)):
+                            cc = rng.random()
+                            if cc < 0.5:
+                                co, _p = scen.gen_job(rng, tz, clock, {"calls": [0, 5], "once_kinds": ["c"], "p_limit": 0.3, "p_stop": 0.0, "p_start": 0.0})
+                                co.pop("clock")
+                                co["payload"] = 99
+                                cops.append(co)
+                            elif cc < 0.85:
+                                cops.append({"op": "del", "key": rng.randrange(nk)})
+                            else:
+                                cops.append({"op": "dtags", "tags": sorted(rng.sample(range(1, 6), rng.randint(0, 1))), "any": False})
+                        scripts[str(kk)] = cops
+                    e["scripts"] = scripts
                 scn["ops"].append(e)
             elif c < 0.7:
                 scn["ops"].append({"op": "del", "key": rng.randrange(nk)})
@@ -126,8 +144,26 @@ def specs(r):
             deleted |= sel
             qs.append((f"spec eq {res[1] if res[0] == 'c' else -1} {len(sel)}", {"what": "delete_jobs_count", "op": i}))
         elif o["op"] == "exec":
-            for k in before - now:
+            for c in ob.get("cops", []):
+                if c["op"] == "sch" and c["ok"]:
+                    created.add(c["key"])
+                    tags[c["key"]] = set(c.get("tags") or [])
+                    if ob["jobs"].get(c["key"], (0, 0, 0, 0, 1, 0))[4] == 0 and ob["jobs"].get(c["key"], (0,) * 6)[2] == 0:
+                        retired.add(c["key"])
+                elif c["op"] == "del":
+                    if c["ok"]:
+                        deleted.add(c["key"])
+                elif c["op"] == "dtags" and c["ok"]:
+                    q = set(c.get("tags") or [])
+                    bset = set(c["before"])
+                    sel = {k for k in bset if (not q) or ((q & tags.get(k, set())) if c.get("any") else q <= tags.get(k, set()))}
+                    deleted |= sel
+                    ok = c["n"] == len(sel) and set(c["after"]) == bset - sel
+                    qs.append((f"spec eq {1 if ok else 0} 1", {"what": "delete_jobs from a callback removes exactly the selection", "op": i}))
+            for k in (before | created) - now - deleted:
+                # gone without a delete: must have been retired (no attempts remaining)
                 retired.add(k)
+                qs.append((f"spec eq {ob['jobs'].get(k, (0, 0, 0, 0, 1, 0))[4]} 0", {"what": "job vanished although it has attempts remaining", "key": k, "op": i}))
             if res[0] != "c":
                 qs.append(("spec eq 0 1", {"what": "exec_jobs raised", "op": i, "exc": ob.get("exc")}))
         elif o["op"] in ("get", "jobs"):
